@@ -353,6 +353,8 @@ class ConcCtx:
     self.checked.append(name)
     if not ok:
       self.failed.append(name)
+      if detail:
+        self.notes.append('%s: %s' % (name, detail))
     return ok
 
   def fail(self, name, detail=None):
@@ -418,9 +420,14 @@ def run_symbolic(case):
           'obligation_names': sorted(ctx.reached | {o['name'] for o in ctx.obligations})}
 
 
+LAST_CONCRETE = {'checked': 0, 'names': set()}
+
+
 def run_concrete(case, values=None, seed=0, n=1, tol=None):
   """Runs the case on the real library with float64 inputs.  Returns (n_run, failures)."""
   rng = random.Random(seed)
+  LAST_CONCRETE['checked'] = 0
+  LAST_CONCRETE['names'] = set()
   failures = []
   done = 0
   tries = 0
@@ -444,8 +451,11 @@ def run_concrete(case, values=None, seed=0, n=1, tol=None):
       done += 1
       continue
     done += 1
+    LAST_CONCRETE['checked'] += len(ctx.checked)
+    LAST_CONCRETE['names'] |= set(ctx.checked)
     if ctx.failed:
-      failures.append({'names': ctx.failed, 'values': dict(ctx.drawn), 'choices': list(ctx.choices)})
+      failures.append({'names': ctx.failed, 'values': dict(ctx.drawn), 'choices': list(ctx.choices),
+                       'error': '; '.join(ctx.notes[:6]) or None})
     if values is not None:
       break
   return done, failures
